@@ -380,3 +380,13 @@ Theorem C11_shard_verdict : forall cases k,
   failing k (map check_C11 cases) = [] -> forall c, In c cases -> check_C11 c = true.
 Proof. exact (failing_nil_all check_C11). Qed.
 Print Assumptions C11_shard_verdict.
+(* transfer of C11_mesh_fftn: the checker's own constructor call establishes wf_mesh, and the OBSERVED
+   k-mesh has the counts kshape (real half on the last axis), the reciprocal dimension names and units *)
+Theorem C11_accepted_kmesh : forall p1 p2 n_ ds us rfft lo hi k ds' us',
+  check_C11 (CMeshF p1 p2 n_ ds us rfft (Some (lo, hi, k, ds', us'))) = true ->
+  exists m, Check_C11.build p1 p2 n_ ds us = OK m /\ wf_mesh m /\
+    k = kshape rfft (n m) /\
+    ds' = map kdim (dims (reg m)) /\
+    us' = map kunit (units (reg m)).
+Proof. exact accepted_kmesh. Qed.
+Print Assumptions C11_accepted_kmesh.
